@@ -1095,7 +1095,7 @@ class WriterMonitor:
     outputs = ('out',)
 
     def __init__(self):
-        self.fed = 0; self.len = None; self.ncopied = 0; self.next_pos = 0; self.bad = None; self.readonly = {'T'}
+        self.fed = 0; self.len = None; self.ncopied = 0; self.next_pos = 0; self.bad = None; self.readonly = {'T'}; self.base = 0
 
     def clone(self):
         m = WriterMonitor(); m.__dict__.update(self.__dict__)
@@ -1110,7 +1110,7 @@ class WriterMonitor:
 
     def stored(self, obj, pos, v, inst):
         if obj != 'out': return
-        if v[0] == 'b' and not bchain(v) and v[1] == ('T', self.next_pos, 0) and pos == self.ncopied:
+        if v[0] == 'b' and not bchain(v) and v[1] == ('T', self.next_pos, 0) and pos == self.base + self.ncopied:
             self.ncopied += 1; self.next_pos += 1
         elif not self.bad:
             self.bad = 'out[%d] receives %s: not byte k of the source to byte k of the output' % (pos, v[0])
